@@ -533,7 +533,11 @@ class KTHierarchyPropagator:
         
         """
         rhot = DensityMatrixEvolution(timeaxis=self.timeaxis, rhoi=rhoi)
-        
+
+        # every propagation starts from an empty hierarchy; the ADOs left
+        # on the hierarchy object by a previous run must not be carried over
+        self.hy.reset_ados()
+
         if free_hierarchy:
             
             # first act with lifting superoperators
